@@ -83,6 +83,8 @@ def _build(kind, project, res, off, extra, case):
     end = min(len(src), off + 1 + extra % 40)
     pyfiles = [r for r in project.get_python_files()]
     other = pyfiles[extra % len(pyfiles)] if pyfiles else res
+    if kind == "move_method":
+        return lambda: move.create_move(project, res, off).get_changes("helper", "moved_meth")
     if kind == "rename":
         return lambda: Rename(project, res, off).get_changes("zz_fresh")
     if kind == "rename_restricted":
@@ -153,6 +155,8 @@ def evaluate(case, env):
     names = projgen.POOL
     outside_src = "".join("%s = %d\n" % (n, i) for i, n in enumerate(names[:5])) + "def outside_fn(alpha, beta=2):\n    return alpha + beta\nclass OutsideCls:\n    gamma = 1\n"
     files["main.py"] = files["main.py"] + "import outside_mod\nprint(outside_mod.alpha, outside_mod.outside_fn(1))\nimport outside_pkg\nprint(outside_pkg.alpha)\n"
+    # a class whose attribute holds an instance of an OUT-OF-PROJECT class: MoveMethod towards it must stay inside the project
+    files["mover.py"] = "import outside_mod\nclass Owner:\n    def __init__(self):\n        self.helper = outside_mod.OutsideCls()\n        self.k = 2\n    def meth(self, x):\n        return x + self.k\n"
     files["ignored/ign.py"] = "".join("%s = %d\n" % (n, i) for i, n in enumerate(names)) + "import m0\n"
     fsmodel.write_tree(root, files)
     fsmodel.write_tree(sibling, {"outside_mod.py": outside_src, "outside_pkg/": None, "outside_pkg/__init__.py": "alpha = 5\n"})
@@ -172,7 +176,11 @@ def evaluate(case, env):
             by_file.setdefault(t[0], []).append(t[1])
         paths = sorted(case["files"])
         # two fixed requests at the end: rename the out-of-project module / package from its import in main.py
-        fixed = [("rename", "main.py", files["main.py"].rindex("outside_mod"), 0, 0), ("rename", "main.py", files["main.py"].rindex("outside_pkg"), 0, 0)]
+        fixed = [
+            ("move_method", "mover.py", files["mover.py"].index("meth"), 0, 0),
+            ("rename", "main.py", files["main.py"].rindex("outside_mod"), 0, 0),
+            ("rename", "main.py", files["main.py"].rindex("outside_pkg"), 0, 0),
+        ]
         for kind, a, b, mode, extra in list(case["requests"]) + fixed:
             if isinstance(a, str):
                 path, src, off, where = a, files[a], b, "outside_import"
@@ -333,7 +341,95 @@ def evaluate(case, env):
     finally:
         project.close()
         core.rmtree(top)
+    if not out.violations:
+        _evaluate_multiproject(case, env, out)
     return out
+
+
+def _evaluate_multiproject(case, env, out):
+    """cross-project refactorings (rope.refactor.multiproject): every project's change set lists only that project's own
+    resources, computing is pure, performing touches only what each project's change set announced"""
+    from rope.base import exceptions as rex
+    from rope.base.project import Project
+    from rope.refactor import move, multiproject, rename
+
+    variant = case["restrict"] % 6
+    top = core.fresh_dir("c09m")
+    roots = [os.path.join(top, n) for n in ("mainproj", "clientproj")]
+    main_files = {
+        "xlib.py": "def xfn(a):\n    return a + 1\nXC = 5\n",
+        "xdest.py": "def other():\n    return 0\n",
+        "app.py": "import xlib\nprint(xlib.xfn(1), xlib.XC)\n",
+    }
+    client_files = {
+        "user.py": "import xlib\nfrom xlib import xfn\nprint(xlib.xfn(2), xfn(3))\n",
+        "xdest.py": "CLIENT_OWN = 1\n",  # same relative path as a file of the main project
+        "xlib_notes.py": "# xfn is mentioned here\n",
+    }
+    fsmodel.write_tree(roots[0], main_files)
+    fsmodel.write_tree(roots[1], client_files)
+    projects = [Project(roots[0], ropefolder=None), Project(roots[1], ropefolder=None)]
+    sub = {"kind": "multiproject", "variant": variant}
+    try:
+        snaps = lambda: [fsmodel.snapshot(r, with_mtime=True) for r in roots]
+        S0 = snaps()
+        out.evals += 1
+        out.labels["multiproject:variant%d" % variant] += 1
+        try:
+            res = projects[0].get_file("xlib.py")
+            off = main_files["xlib.py"].index("xfn") if variant % 2 == 0 else main_files["xlib.py"].index("XC")
+            if variant < 2:
+                cross = multiproject.MultiProjectRefactoring(rename.Rename, projects[1:])
+                pcs = cross(projects[0], res, off).get_all_changes("zz_fresh")
+            else:
+                cross = multiproject.MultiProjectRefactoring(move.MoveGlobal, projects[1:])
+                dest = projects[0].get_file("xdest.py")
+                ref = cross(projects[0], res, off)
+                pcs = ref.get_all_changes(dest) if variant < 4 else ref.get_all_changes(dest=dest)
+        except rex.RopeError:
+            out.refused += 1
+            if snaps() != S0:
+                out.violation("C09:multiproject:refusal_touched_disk", str(sub), sub)
+            return
+        except Exception as e:
+            etype, site = _site(e)
+            key = "site:multiproject:%s:%s" % (etype, site)
+            if env.known(key):
+                out.excluded[key] += 1
+            else:
+                out.violation("C09:internal_error:multiproject:%s:%s" % (etype, site), "%r %s" % (e, sub), sub)
+            return
+        if snaps() != S0:
+            out.violation("C09:multiproject:get_changes_touched_disk", str(sub), sub)
+            return
+        announced = []
+        for proj, changes in pcs:
+            rs = list(changes.get_changed_resources()) if changes is not None else []
+            foreign = [r.real_path for r in rs if r.project is not proj or not os.path.realpath(r.real_path).startswith(os.path.realpath(proj.address) + os.sep)]
+            if foreign:
+                out.violation("C09:multiproject:change_set_lists_another_projects_resource", "project %s announces %s" % (os.path.basename(proj.address), foreign), sub)
+                return
+            announced.append({r.path for r in rs})
+        plain = lambda s: {p: (v[0] if isinstance(v, tuple) and len(v) == 2 else None) for p, v in s.items()}
+        before = [plain(x) for x in S0]
+        try:
+            multiproject.perform([(p_, c_) for p_, c_ in pcs if c_ is not None])
+        except rex.RopeError:
+            out.refused += 1
+            return
+        after = [plain(x) for x in snaps()]
+        for i in (0, 1):
+            changed = {p.rstrip("/") for p in set(before[i]) | set(after[i]) if before[i].get(p, "-") != after[i].get(p, "-")}
+            stray = changed - announced[i]
+            if stray:
+                out.violation("C09:multiproject:unannounced_change", "%s changed %s, announced %s" % (os.path.basename(roots[i]), sorted(stray), sorted(announced[i])), sub)
+                return
+        if announced[1]:
+            out.nontrivial.add(("multiproject", variant))
+    finally:
+        for p_ in projects:
+            p_.close()
+        core.rmtree(top)
 
 
 def _collect_descriptions(c, descr):
